@@ -481,7 +481,7 @@ def race_harness(res, tier, seed, known):
     if not (ok and ok2):
         res.tie_broken.append("race harness does not build against /repo: " + (log + log2)[-800:])
         return {}
-    secs = 6 if tier == "quick" else 90
+    secs = 14 if tier == "quick" else 90
     d = os.path.join(BUILD, "race.%d" % os.getpid())
     os.makedirs(d, exist_ok=True)
     out = os.path.join(d, "race.json")
